@@ -7,6 +7,9 @@ import json, os, subprocess, sys, time
 from pathlib import Path
 
 V = Path(__file__).resolve().parent.parent
+# many of these run side by side: keep BLAS/OpenMP pools small
+for _k in ("OMP_NUM_THREADS", "OPENBLAS_NUM_THREADS", "MKL_NUM_THREADS"):
+    os.environ.setdefault(_k, "2")
 
 
 def sh(cmd, timeout=3600, **kw):
